@@ -40,12 +40,21 @@ Theorem query_result_roundtrip {I J} (u : I -> J) fetched fetch :
   length (unpickle_query_result u (pickle_query_result fetched fetch)) = length (pickle_query_result fetched fetch).
 Proof. split; [reflexivity | apply map_length]. Qed.
 
-(* collections: a one-to-many wrapper unpickled in a fresh session holds its items again when every item carried its reference;
-   a many-to-many wrapper does not (Findings/C31.v) *)
-Theorem set_roundtrip_one_to_many items ref_loaded : (forall i, In i items -> ref_loaded i = true) ->
-  unpickle_set OneToMany [] items ref_loaded = items.
+(* collections: a wrapper unpickled in a session that has not loaded the collection holds its items again, whatever the kind of
+   relationship; in a session that has, nothing is duplicated *)
+Theorem set_roundtrip k items ref_loaded : unpickle_set k [] items ref_loaded = items.
+Proof. unfold unpickle_set. cbn [app existsb negb]. induction items as [|i r IH]; cbn; [reflexivity | now rewrite IH]. Qed.
+
+Theorem set_roundtrip_loaded k here ref_loaded : unpickle_set k here here ref_loaded = here.
 Proof.
-  intros H. unfold unpickle_set. cbn [app existsb negb]. induction items as [|i r IH]; cbn; [reflexivity|].
-  rewrite (H i) by now left. cbn. f_equal. rewrite <- IH at 2; [|intros j Hj; apply H; now right].
-  apply filter_ext. intros j. now rewrite !andb_true_r.
+  unfold unpickle_set. rewrite <- (app_nil_r here) at 3. f_equal.
+  assert (H : forall l, incl l here -> filter (fun i => negb (existsb (Nat.eqb i) here)) l = []).
+  { induction l as [|i r IH]; intros Hi; cbn; [reflexivity|].
+    assert (E : existsb (Nat.eqb i) here = true) by (apply existsb_exists; exists i; split; [apply Hi; now left | apply Nat.eqb_refl]).
+    rewrite E. cbn. apply IH. intros x Hx. apply Hi. now right. }
+  apply H, incl_refl.
 Qed.
+
+Theorem set_roundtrip_both k items ref_loaded here :
+  unpickle_set k [] items ref_loaded = items /\ unpickle_set k here here ref_loaded = here.
+Proof. split; [apply set_roundtrip | apply set_roundtrip_loaded]. Qed.
